@@ -22,7 +22,9 @@ import (
 	"encoding/hex"
 	"encoding/json"
 	"fmt"
+	"log/slog"
 	"net"
+	"runtime"
 	"sort"
 	"strings"
 	"sync"
@@ -30,6 +32,7 @@ import (
 	"time"
 
 	"github.com/postalsys/muti-metroo/internal/config"
+	"github.com/postalsys/muti-metroo/internal/crypto"
 	"github.com/postalsys/muti-metroo/internal/health"
 	icmppkg "github.com/postalsys/muti-metroo/internal/icmp"
 	"github.com/postalsys/muti-metroo/internal/identity"
@@ -291,6 +294,9 @@ type zzvRApp struct {
 	uclient  *net.UDPConn
 	urcv     []string
 	firstSid uint64 // id of the tunnel on its first hop (operation-level scenarios)
+	paused   bool   // the reader does not read
+	bulk     bool   // the reader collects raw bytes (rcvBulk) instead of tokens
+	rcvBulk  []byte
 }
 
 func (ap *zzvRApp) state() string {
@@ -318,13 +324,39 @@ func (ap *zzvRApp) received() []string {
 	return append([]string(nil), ap.rcv...)
 }
 
+func (ap *zzvRApp) isPaused() bool {
+	ap.mu.Lock()
+	defer ap.mu.Unlock()
+	return ap.paused
+}
+
+func (ap *zzvRApp) bulkLen() int {
+	ap.mu.Lock()
+	defer ap.mu.Unlock()
+	return len(ap.rcvBulk)
+}
+
+// zzvBulk: the byte stream a target sends in a slow-reader scenario (position dependent, so a hole is located)
+func zzvBulk(t, n int) []byte {
+	b := make([]byte, n)
+	for i := range b {
+		b[i] = byte(i*131 + (i>>8)*7 + (i>>16)*3 + t)
+	}
+	return b
+}
+
 func (ap *zzvRApp) readLoop() {
 	buf := make([]byte, 4096)
 	var acc []byte
 	for {
+		for ap.isPaused() { // a consumer that stops reading (slow-reader scenarios)
+			time.Sleep(2 * time.Millisecond)
+		}
 		n, err := ap.conn.Read(buf)
 		ap.mu.Lock()
-		if n > 0 {
+		if n > 0 && ap.bulk {
+			ap.rcvBulk = append(ap.rcvBulk, buf[:n]...)
+		} else if n > 0 {
 			acc = append(acc, buf[:n]...)
 			for len(acc) >= zzvTokLen {
 				ap.rcv = append(ap.rcv, string(acc[:zzvTokLen]))
@@ -522,6 +554,46 @@ func (w *zzvRWorld) holdAll() {
 		lk.Dir(l[0]).setHold(true)
 		lk.Dir(l[1]).setHold(true)
 	}
+}
+
+// udpAssocIntact: "" when the ingress still has the association of the tunnel registered under its own id
+func (w *zzvRWorld) udpAssocIntact(ap *zzvRApp) string {
+	a := w.agent(ap.path[0])
+	a.udpIngressMu.RLock()
+	defer a.udpIngressMu.RUnlock()
+	ing := a.udpIngressByBase[ap.ubase]
+	if ing == nil {
+		return "the base association is gone"
+	}
+	lk := a.udpIngressByLocalStream[ap.firstSid]
+	if lk == nil {
+		return fmt.Sprintf("no association registered under its id %d any more", ap.firstSid)
+	}
+	if lk.Ingress != ing {
+		return fmt.Sprintf("id %d now belongs to another association", ap.firstSid)
+	}
+	return ""
+}
+
+// corruptNext flips one byte (in the authentication tag) of the next STREAM_DATA frame from -> to with the given id
+func (w *zzvRWorld) corruptNext(from, to string, sid uint64) {
+	n := w.m.Net
+	armed := true
+	var mu sync.Mutex
+	n.mu.Lock()
+	n.filter = func(f *zzvFrame) bool {
+		if !zzvIsTunnelFrame(f.Type) {
+			return false
+		}
+		mu.Lock()
+		defer mu.Unlock()
+		if armed && f.Type == protocol.FrameStreamData && f.From == from && f.To == to && f.StreamID == sid && len(f.Payload) > 0 {
+			armed = false
+			f.raw[len(f.raw)-1] ^= 0xff
+		}
+		return true
+	}
+	n.mu.Unlock()
 }
 
 func (w *zzvRWorld) burn(a, p string) {
@@ -1276,6 +1348,7 @@ type zzvSOp struct {
 	A  string `json:"a"`
 	P  string `json:"p"`
 	Ms int    `json:"ms"`
+	N  int    `json:"n"`
 }
 
 type zzvScenario struct {
@@ -1597,7 +1670,14 @@ func TestZZVRelayScenario(t *testing.T) {
 						e.expI = got
 					}
 				}
-				if id == except || ap.kind == "udp" {
+				if id == except {
+					continue
+				}
+				if ap.kind == "udp" {
+					if why := w.udpAssocIntact(ap); why != "" {
+						fail(op, "crossclose", id, fmt.Sprintf("UDP association of tunnel %d ended although nobody closed it: %s", id, why))
+						e.state = "closed"
+					}
 					continue
 				}
 				if st := ap.state(); st != "open" {
@@ -1784,6 +1864,159 @@ func TestZZVRelayScenario(t *testing.T) {
 						exp[id].broken = true
 					}
 				}
+			case "stall":
+				// the ingress application stops reading for Ms while the target sends N frames worth of data (more than
+				// the stream's read buffer holds): back-pressure may delay everything on that link, but every byte must
+				// arrive, in order, once the reader resumes.
+				if e.state != "open" || e.broken || failed[op.T] || ap.kind == "udp" {
+					continue
+				}
+				c := ap.target.conn()
+				if c == nil {
+					continue
+				}
+				const chunk = 16380
+				want := zzvBulk(op.T, op.N*chunk)
+				ap.mu.Lock()
+				ap.bulk, ap.paused, ap.rcvBulk = true, true, nil
+				ap.mu.Unlock()
+				// the reader may be inside Read already: it takes one frame and then stops
+				wr := make(chan error, 1)
+				go func() {
+					var err error
+					for off := 0; off < len(want) && err == nil; off += chunk {
+						_, err = c.Write(want[off : off+chunk])
+					}
+					wr <- err
+				}()
+				// the pause is measured from the moment the stream's read buffer is full (frames are then waiting behind it)
+				ap.mu.Lock()
+				mc, _ := ap.conn.(*meshConn)
+				ap.mu.Unlock()
+				if mc != nil {
+					rb := mc.stream.ReadBuffer()
+					if !zzvWaitFor(15*time.Second, func() bool { return len(rb) == cap(rb) }) {
+						zzvEmit("note", map[string]any{"scenario": sc.Name, "note": "read buffer never filled up; the stall ran without back-pressure"})
+					}
+				}
+				time.Sleep(time.Duration(op.Ms) * time.Millisecond)
+				ap.mu.Lock()
+				ap.paused = false
+				ap.mu.Unlock()
+				select {
+				case err := <-wr:
+					if err != nil {
+						fail(oi, "crossclose", op.T, "target write failed during the stall: "+err.Error())
+					}
+				case <-time.After(20 * time.Second):
+					t.Fatalf("relay: scenario %s: target write did not finish", sc.Name)
+				}
+				// everything in flight drains; the stream ends neither early nor short
+				last, lastChange := -1, time.Now()
+				zzvWaitFor(30*time.Second, func() bool {
+					n := ap.bulkLen()
+					if n != last {
+						last, lastChange = n, time.Now()
+					}
+					return n >= len(want) || time.Since(lastChange) > 4*wait
+				})
+				ap.mu.Lock()
+				got := append([]byte(nil), ap.rcvBulk...)
+				ap.bulk = false
+				ap.mu.Unlock()
+				if string(got) != string(want) {
+					d := 0
+					for d < len(got) && d < len(want) && got[d] == want[d] {
+						d++
+					}
+					what := "bytes"
+					if d == len(got) {
+						what = "starve"
+					}
+					fail(oi, what, op.T, fmt.Sprintf("slow reader (paused %d ms, %d frames in flight): target sent %d bytes, the ingress application "+
+						"received %d; the streams differ at offset %d (frame %d)", op.Ms, op.N, len(want), len(got), d, d/chunk))
+				}
+			case "xidle":
+				// the exit's idle timer ends association T while the other associations stay busy
+				if e.state != "open" || ap.kind != "udp" || idle == 0 {
+					continue
+				}
+				x := w.agent(ap.path[len(ap.path)-1])
+				hs := w.hopSids()[op.T]
+				lastSid := hs[len(hs)-1]
+				if x.udpHandler == nil || x.udpHandler.GetAssociation(lastSid) == nil {
+					t.Fatalf("relay: scenario %s: exit has no association for tunnel %d (id %d)", sc.Name, op.T, lastSid)
+				}
+				gone := zzvWaitFor(8*idle+5*time.Second, func() bool {
+					if x.udpHandler.GetAssociation(lastSid) == nil {
+						return true
+					}
+					for uid, bp := range w.apps {
+						ue := exp[uid]
+						if uid == op.T || bp.kind != "udp" || ue.state != "open" || ue.broken || failed[uid] {
+							continue
+						}
+						ue.nf++
+						tok := zzvTok(uid, "K", ue.nf)
+						if err := w.udpSend(bp, tok); err != nil {
+							fail(oi, "crossclose", uid, "keep-alive datagram refused: "+err.Error())
+							continue
+						}
+						ue.expX = append(ue.expX, tok)
+						ue.expI = append(ue.expI, tok)
+						if !zzvWaitFor(wait, func() bool { return zzvHasPrefixSeq(bp.obsI(), ue.expI) }) {
+							fail(oi, "starve", uid, fmt.Sprintf("keep-alive datagram %s did not come back (client has %v)", tok, bp.obsI()))
+							ue.expI, ue.expX = bp.obsI(), bp.obsX()
+						}
+					}
+					time.Sleep(idle / 4)
+					return false
+				})
+				if !gone {
+					t.Fatalf("relay: scenario %s: the exit never expired the idle association", sc.Name)
+				}
+				e.state = "closed"
+				w.m.Quiesce(5*time.Second, 15*time.Millisecond)
+				if why := w.udpAssocIntact(ap); why == "" {
+					fail(oi, "lostclose", op.T, "the exit expired the association and sent UDP_CLOSE, but the ingress still has it registered")
+				}
+			case "corrupt":
+				// one byte of the next STREAM_DATA frame of tunnel T is flipped on the first link (forged / damaged frame)
+				if e.state != "open" || e.broken || ap.kind == "udp" {
+					continue
+				}
+				w.corruptNext(ap.path[0], ap.path[1], ap.firstSid)
+				ap.mu.Lock()
+				c := ap.conn
+				ap.mu.Unlock()
+				e.nf++
+				c.Write([]byte(zzvTok(op.T, "F", e.nf)))
+				// the frame cannot be authenticated: the tunnel is over, however the exit decides to end it
+				e.state = "closed"
+				zzvWaitFor(wait, func() bool { return ap.target.state() == "closed" })
+			case "tabort":
+				// the target resets its connection while the ingress keeps writing: the exit's write / read fails
+				if e.state != "open" || e.broken || ap.kind == "udp" {
+					continue
+				}
+				tc := ap.target.conn()
+				if tc == nil {
+					continue
+				}
+				ap.target.mu.Lock()
+				ap.target.selfShut = true
+				ap.target.mu.Unlock()
+				if tcp, ok := tc.(*net.TCPConn); ok {
+					tcp.SetLinger(0)
+				}
+				tc.Close()
+				ap.mu.Lock()
+				c := ap.conn
+				ap.mu.Unlock()
+				e.nf++
+				c.Write([]byte(zzvTok(op.T, "F", e.nf)))
+				e.state = "closed"
+				zzvWaitFor(wait, func() bool { st := ap.state(); return st == "rclosed" })
 			case "burn":
 				// one stream id of agent A's connection to P is used up: from here on the ids of the two hops of a
 				// relayed tunnel differ (no collision involved)
@@ -2121,6 +2354,46 @@ func TestZZVRelayICMP(t *testing.T) {
 			fail("icmp-fanin", "leak", "relay", fmt.Sprintf("ICMP relay entries after both sessions closed and both peers disconnected: up=%d down=%d (before: %d %d)",
 				c["relay.icmp.up"], c["relay.icmp.down"], base["relay.icmp.up"], base["relay.icmp.down"]))
 		}
+		// (c) a close that originates at the exit (idle expiry there) with two sessions of one ingress peer alive and
+		// different ids on the two hops: only the addressed session ends, and under its own id
+		p5 := m.DialPuppet("P5", "T")
+		zzvWaitFor(5*time.Second, func() bool { return tt.peerMgr.GetPeer(p5.ID) != nil })
+		if !open(p5, 11, 3011) || !open(p5, 13, 3013) {
+			t.Fatal("relay-icmp: sessions for the exit-close scenario did not open")
+		}
+		var down11 uint64
+		e2.mu.Lock()
+		for sid, req := range e2.opens {
+			if req == 3011 {
+				down11 = sid
+			}
+		}
+		e2.mu.Unlock()
+		if down11 == 0 || down11 == 11 {
+			t.Fatalf("relay-icmp: ids of the two hops are not skewed (upstream 11, downstream %d)", down11)
+		}
+		before := len(p5.Received())
+		p2.Send(&protocol.Frame{Type: protocol.FrameICMPClose, StreamID: down11, Payload: (&protocol.ICMPClose{Reason: protocol.ICMPCloseTimeout}).Encode()})
+		m.Quiesce(3*time.Second, 20*time.Millisecond)
+		var closes []uint64
+		zzvWaitFor(wait, func() bool {
+			closes = nil
+			for _, f := range p5.Received()[before:] {
+				if f.Type == protocol.FrameICMPClose {
+					closes = append(closes, f.StreamID)
+				}
+			}
+			return len(closes) > 0
+		})
+		if len(closes) != 1 || closes[0] != 11 {
+			fail("icmp-exit-close", "crossclose", "", fmt.Sprintf("the exit closed the session with upstream id 11 (downstream id %d); the ingress peer was told to close %v", down11, closes))
+		}
+		if got, ok := echo(p5, 13, 7, "still-there"); !ok || got != "E:still-there" {
+			fail("icmp-exit-close", "crossclose", "", fmt.Sprintf("the other session (id 13) after the exit closed session 11: reply %q ok=%v", got, ok))
+		}
+		p5.Send(&protocol.Frame{Type: protocol.FrameICMPClose, StreamID: 13, Payload: cl.Encode()})
+		m.Quiesce(3*time.Second, 20*time.Millisecond)
+		p5.Close()
 	}()
 	zzvEmit("icmp-summary", map[string]any{"fails": fails, "icmp_exit_real": zzvICMPWorks()})
 }
@@ -2152,4 +2425,398 @@ func zzvWrapICMP(s *health.ICMPSession) *zzvICMPSess {
 			}
 		},
 	}
+}
+
+// ---------------------------------------------------------------------------------------------
+// TestZZVRelayGate: the transit's data handler as two steps (Relay.tla: RelayLookup / RelaySend).
+// Fork A,B - T - X,Y.  The frame loop of connection A-T is stopped between the relay-table lookup (+ peer comparison) and
+// the use of the entry (point "agent.relay.lookup"); meanwhile the other side of tunnel 1 (A-T-X) closes it (frame loop of
+// X-T) and a third peer opens tunnel 2 (B-T-Y, frame loops of B-T and Y-T).  When the first loop continues, its frame must
+// not end up in tunnel 2.  All stream ids are distinct (the allocators are skewed before the tunnels are opened).
+
+func TestZZVRelayGate(t *testing.T) {
+	rounds := zzvEnvInt("ZZV_GATE_ROUNDS", 2)
+	wait := 2500 * time.Millisecond
+	var fails []map[string]any
+	reached := 0
+	for round := 0; round < rounds; round++ {
+		for _, variant := range []string{"tcp", "forward"} {
+			w := zzvNewRelayWorld(t, "fork", variant, map[int]string{1: "tcp", 2: "tcp"}, 0)
+			w.m.Net.mu.Lock()
+			w.m.Net.filter = func(f *zzvFrame) bool { return zzvIsTunnelFrame(f.Type) }
+			w.m.Net.mu.Unlock()
+			// skew: A -> T uses 1, B -> T 5 (+2 per round), T -> X 9, T -> Y 13: no two ids coincide
+			for i := 0; i < 2+round; i++ {
+				w.burn("B", "T")
+			}
+			for i := 0; i < 4; i++ {
+				w.burn("T", "X")
+			}
+			for i := 0; i < 6; i++ {
+				w.burn("T", "Y")
+			}
+			t1, t2 := w.apps[1], w.apps[2]
+			tt, ida := w.agent("T"), w.m.ID("A")
+			if r := w.sOpen(t1, wait); r != "" {
+				t.Fatalf("relay-gate: tunnel 1 did not open: %s", r)
+			}
+			zzvWaitFor(wait, func() bool { return t1.target.state() == "open" })
+			// one single P: sync.Pool style recycling hands the struct released by one frame loop to the next one
+			armed, hit, release := true, make(chan struct{}, 1), make(chan struct{})
+			var gmu sync.Mutex
+			w.m.SetHook("agent.relay.lookup", func(args ...any) {
+				if len(args) < 3 {
+					return
+				}
+				ag, _ := args[0].(*Agent)
+				pid, _ := args[1].(identity.AgentID)
+				fr, _ := args[2].(*protocol.Frame)
+				gmu.Lock()
+				mine := armed && ag == tt && pid == ida && fr != nil && fr.Type == protocol.FrameStreamData
+				if mine {
+					armed = false
+				}
+				gmu.Unlock()
+				if mine {
+					hit <- struct{}{}
+					<-release
+				}
+			})
+			old := runtimeGOMAXPROCS(1)
+			t1.mu.Lock()
+			c1 := t1.conn
+			t1.mu.Unlock()
+			c1.Write([]byte(zzvTok(1, "F", 1)))
+			gated := false
+			select {
+			case <-hit:
+				gated = true
+			case <-time.After(wait):
+			}
+			if !gated {
+				runtimeGOMAXPROCS(old)
+				close(release)
+				w.m.SetHook("agent.relay.lookup", nil)
+				w.teardown()
+				continue
+			}
+			reached++
+			// the other side ends tunnel 1: FIN + CLOSE travel X -> T -> A
+			tc := t1.target.conn()
+			t1.target.mu.Lock()
+			t1.target.selfShut = true
+			t1.target.mu.Unlock()
+			tc.Close()
+			if !zzvWaitFor(wait, func() bool { up, _ := zzvRelayIndex(tt.tcpRelay); return len(up) == 0 }) {
+				t.Fatalf("relay-gate: the transit did not process the close of tunnel 1")
+			}
+			// a third peer opens tunnel 2
+			r2 := w.sOpen(t2, wait)
+			zzvWaitFor(wait, func() bool { return t2.target.state() == "open" })
+			sids := w.hopSids()
+			close(release)
+			runtimeGOMAXPROCS(old)
+			w.m.Quiesce(3*time.Second, 20*time.Millisecond)
+			fail := func(what, detail string) {
+				fails = append(fails, map[string]any{"scenario": "gate-" + variant, "round": round, "what": what, "detail": detail, "sids": sids})
+			}
+			if sids[1][0] == sids[2][0] || sids[1][1] == sids[2][1] {
+				t.Fatalf("relay-gate: stream ids are not distinct: %v", sids)
+			}
+			// wire level: the ciphertext A wrote for tunnel 1 may only travel A -> T -> X
+			var ct []byte
+			for _, f := range w.m.Net.Frames() {
+				if f.Type == protocol.FrameStreamData && len(f.Payload) > 0 {
+					if f.From == "A" && f.To == "T" && ct == nil {
+						ct = f.Payload
+					} else if ct != nil && string(f.Payload) == string(ct) && !(f.From == "T" && f.To == "X") {
+						fail("crossbytes", fmt.Sprintf("the data frame of tunnel 1 (A-T-X) was put on link %s -> %s with stream id %d", f.From, f.To, f.StreamID))
+					}
+				}
+			}
+			if r2 != "" {
+				fail("open", "tunnel 2 did not open: "+r2)
+			} else {
+				if got := t2.obsX(); len(got) != 0 {
+					fail("crossbytes", fmt.Sprintf("target of tunnel 2 received %v before its ingress sent anything", got))
+				}
+				if st, sx := t2.state(), t2.target.state(); st != "open" || sx != "open" {
+					fail("crossclose", fmt.Sprintf("tunnel 2 (opened while a frame of tunnel 1 was being relayed) is %s at the ingress and %s at the target although nobody closed it", st, sx))
+				} else {
+					t2.mu.Lock()
+					c2 := t2.conn
+					t2.mu.Unlock()
+					tok := zzvTok(2, "F", 1)
+					c2.Write([]byte(tok))
+					if !zzvWaitFor(wait, func() bool { return len(t2.obsX()) >= 1 }) || t2.obsX()[0] != tok {
+						fail("starve", fmt.Sprintf("token %s of tunnel 2 did not reach its target (target has %v)", tok, t2.obsX()))
+					}
+				}
+			}
+			w.m.SetHook("agent.relay.lookup", nil)
+			w.teardown()
+		}
+	}
+	zzvEmit("gate-summary", map[string]any{"rounds": rounds * 2, "gate_reached": reached, "fails": fails})
+}
+
+// ---------------------------------------------------------------------------------------------
+// TestZZVRelayFaults: open failures of every kind and data-path faults against the exit handler and the forward
+// handler of a real agent X, driven by a puppet ingress; after every step the number of connection records and the
+// connection counter must equal the number of tunnels that are really established.
+
+func TestZZVRelayFaults(t *testing.T) {
+	var fails []map[string]any
+	steps := 0
+	for _, handler := range []string{"exit", "forward"} {
+		m := zzvNewMesh(t)
+		good := zzvNewTarget(t, "127.1.0.1")
+		dead := zzvNewTarget(t, "127.1.0.1")
+		deadAddr := dead.addr
+		dead.closeListener()
+		m.Add(zzvNodeSpec{Name: "X", Listen: true, Mut: func(c *config.Config) {
+			c.Exit.Enabled = true
+			c.Exit.Routes = []string{"127.1.0.0/24"}
+			c.Forward.Endpoints = []config.ForwardEndpoint{{Key: "ok", Target: good.addr}, {Key: "dead", Target: deadAddr}}
+			c.Limits.MaxStreamsTotal = 3
+			c.Limits.MaxStreamsPerPeer = 3
+		}})
+		m.Start("X")
+		x := m.Nodes["X"].A
+		p := m.DialPuppet("P", "X")
+		if !zzvWaitFor(5*time.Second, func() bool { return x.peerMgr.GetPeer(p.ID) != nil }) {
+			t.Fatal("relay-faults: puppet not registered")
+		}
+		counts := func() (int, int64) {
+			if handler == "exit" {
+				r, c := x.exitHandler.ZZVSnapshot()
+				return len(r), c
+			}
+			r, c := x.forwardHandler.ZZVSnapshot()
+			return len(r), c
+		}
+		fail := func(step, detail string) {
+			fails = append(fails, map[string]any{"handler": handler, "step": step, "detail": detail})
+		}
+		expect := func(step string, live int) {
+			steps++
+			var r int
+			var c int64
+			if !zzvWaitFor(3*time.Second, func() bool { r, c = counts(); return r == live && c == int64(live) }) {
+				fail(step, fmt.Sprintf("%s handler after %q: %d connection records, counter %d, tunnels really established: %d", handler, step, r, c, live))
+			}
+		}
+		sid := uint64(1)
+		req := uint64(100)
+		open := func(kind string) (uint64, uint8) {
+			id := sid
+			sid += 2
+			req++
+			o := &protocol.StreamOpen{RequestID: req}
+			_, pub, err := zzvEphemeral()
+			if err != nil {
+				t.Fatal(err)
+			}
+			o.EphemeralPubKey = pub
+			tgt := good.l.Addr().(*net.TCPAddr)
+			switch {
+			case handler == "exit":
+				o.AddressType, o.Address, o.Port = protocol.AddrTypeIPv4, []byte(tgt.IP.To4()), uint16(tgt.Port)
+				switch kind {
+				case "notallowed":
+					o.Address = []byte{10, 9, 9, 9}
+				case "deadport":
+					o.Port = uint16(dead.port())
+				}
+			default:
+				key := "ok"
+				switch kind {
+				case "notallowed":
+					key = "no-such-key"
+				case "deadport":
+					key = "dead"
+				}
+				a := protocol.ForwardStreamPrefix + key
+				o.AddressType, o.Address = protocol.AddrTypeDomain, append([]byte{byte(len(a))}, a...)
+			}
+			if kind == "badkey" {
+				o.EphemeralPubKey = [protocol.EphemeralKeySize]byte{} // rejected by the key exchange
+			}
+			before := len(p.Received())
+			p.Send(&protocol.Frame{Type: protocol.FrameStreamOpen, StreamID: id, Payload: o.Encode()})
+			var ty uint8
+			zzvWaitFor(5*time.Second, func() bool {
+				for _, f := range p.Received()[before:] {
+					if f.StreamID == id && (f.Type == protocol.FrameStreamOpenAck || f.Type == protocol.FrameStreamOpenErr) {
+						ty = f.Type
+						return true
+					}
+				}
+				return false
+			})
+			return id, ty
+		}
+		wantErr := func(step, kind string, live int) {
+			if _, ty := open(kind); ty != protocol.FrameStreamOpenErr {
+				fail(step, fmt.Sprintf("open (%s) was answered with frame type 0x%02x, expected STREAM_OPEN_ERR", kind, ty))
+			}
+			expect(step, live)
+		}
+		wantAck := func(step string, live int) uint64 {
+			id, ty := open("good")
+			if ty != protocol.FrameStreamOpenAck {
+				fail(step, fmt.Sprintf("open of an allowed, listening destination was answered with frame type 0x%02x (limit consumed by tunnels that no longer exist?)", ty))
+			}
+			expect(step, live)
+			return id
+		}
+		expect("start", 0)
+		wantErr("key-exchange-failure", "badkey", 0)
+		wantErr("destination-not-allowed", "notallowed", 0)
+		wantErr("dial-failure", "deadport", 0)
+		wantErr("key-exchange-failure-2", "badkey", 0)
+		a := wantAck("open-1", 1)
+		b := wantAck("open-2", 2)
+		c := wantAck("open-3", 3)
+		wantErr("limit-reached", "good", 3)
+		// a data frame that cannot be authenticated
+		p.Send(&protocol.Frame{Type: protocol.FrameStreamData, StreamID: a, Payload: []byte("this is not a ciphertext of the session....")})
+		expect("undecryptable-data", 2)
+		// the target resets connection b
+		good.mu.Lock()
+		var tb net.Conn
+		if len(good.conns) >= 2 {
+			tb = good.conns[1]
+		}
+		good.mu.Unlock()
+		if tb != nil {
+			if tcp, ok := tb.(*net.TCPConn); ok {
+				tcp.SetLinger(0)
+			}
+			tb.Close()
+		}
+		_ = b
+		expect("target-reset", 1)
+		p.Send(&protocol.Frame{Type: protocol.FrameStreamClose, StreamID: c})
+		expect("ingress-close", 0)
+		// the limit is not consumed by tunnels that no longer exist
+		d := wantAck("open-after-failures-1", 1)
+		e := wantAck("open-after-failures-2", 2)
+		f := wantAck("open-after-failures-3", 3)
+		for _, id := range []uint64{d, e, f} {
+			p.Send(&protocol.Frame{Type: protocol.FrameStreamClose, StreamID: id})
+		}
+		expect("end", 0)
+		p.Close()
+		good.shutdown()
+		m.StopAll()
+	}
+	zzvEmit("faults-summary", map[string]any{"steps": steps, "fails": fails})
+}
+
+// ---------------------------------------------------------------------------------------------
+// TestZZVRelayReconnect: a peer's connection drops while tunnels are relayed through it and the peer is back (new
+// connection registered) before the transit's disconnect callback runs.  The callback is stopped at its first statement
+// (the agent's logger is a harness-supplied gate).  Afterwards no relay entry of the dead connection may remain
+// (puppet endpoints never send a close, so only the disconnect handling can remove them).
+
+type zzvGateLog struct {
+	mu      sync.Mutex
+	armed   bool
+	hit     chan struct{}
+	release chan struct{}
+}
+
+func (g *zzvGateLog) Enabled(context.Context, slog.Level) bool { return true }
+func (g *zzvGateLog) WithAttrs([]slog.Attr) slog.Handler       { return g }
+func (g *zzvGateLog) WithGroup(string) slog.Handler            { return g }
+func (g *zzvGateLog) Handle(_ context.Context, r slog.Record) error {
+	if r.Message != "peer disconnected" {
+		return nil
+	}
+	g.mu.Lock()
+	mine := g.armed
+	g.armed = false
+	g.mu.Unlock()
+	if mine {
+		g.hit <- struct{}{}
+		<-g.release
+	}
+	return nil
+}
+
+func TestZZVRelayReconnect(t *testing.T) {
+	var fails []map[string]any
+	rounds := 0
+	for _, side := range []string{"upstream", "downstream"} {
+		m := zzvNewMesh(t)
+		n := m.Add(zzvNodeSpec{Name: "T", Listen: true})
+		g := &zzvGateLog{hit: make(chan struct{}, 1), release: make(chan struct{})}
+		n.A.logger = slog.New(g)
+		m.Start("T")
+		tt := n.A
+		p1, p2 := m.DialPuppet("P1", "T"), m.DialPuppet("P2", "T")
+		if !zzvWaitFor(5*time.Second, func() bool { return tt.peerMgr.GetPeer(p1.ID) != nil && tt.peerMgr.GetPeer(p2.ID) != nil }) {
+			t.Fatal("relay-reconnect: puppets not registered")
+		}
+		// one relayed tunnel of every kind P1 -> T -> P2 (the puppets never answer and never close)
+		var eph [protocol.EphemeralKeySize]byte
+		eph[0] = 9
+		so := &protocol.StreamOpen{RequestID: 1, AddressType: protocol.AddrTypeIPv4, Address: []byte{127, 1, 0, 1}, Port: 80,
+			RemainingPath: []identity.AgentID{p2.ID}, EphemeralPubKey: eph}
+		p1.Send(&protocol.Frame{Type: protocol.FrameStreamOpen, StreamID: 1, Payload: so.Encode()})
+		uo := &protocol.UDPOpen{RequestID: 2, AddressType: protocol.AddrTypeIPv4, Address: []byte{0, 0, 0, 0}, TTL: 3,
+			RemainingPath: []identity.AgentID{p2.ID}, EphemeralPubKey: eph}
+		p1.Send(&protocol.Frame{Type: protocol.FrameUDPOpen, StreamID: 3, Payload: uo.Encode()})
+		io := &protocol.ICMPOpen{RequestID: 3, DestIP: []byte{127, 1, 0, 1}, TTL: 3, RemainingPath: []identity.AgentID{p2.ID}, EphemeralPubKey: eph}
+		p1.Send(&protocol.Frame{Type: protocol.FrameICMPOpen, StreamID: 5, Payload: io.Encode()})
+		relays := func() (n int64) {
+			for k, v := range tt.zzvCounts() {
+				if strings.HasPrefix(k, "relay.") {
+					n += v
+				}
+			}
+			return
+		}
+		if !zzvWaitFor(3*time.Second, func() bool { return relays() == 6 }) {
+			t.Fatalf("relay-reconnect: transit did not create the three relay entries: %v", tt.zzvCounts())
+		}
+		victim := p1
+		if side == "downstream" {
+			victim = p2
+		}
+		g.mu.Lock()
+		g.armed = true
+		g.mu.Unlock()
+		victim.Close()
+		select {
+		case <-g.hit:
+		case <-time.After(5 * time.Second):
+			t.Fatal("relay-reconnect: the transit's disconnect callback was never reached")
+		}
+		// the peer is back before the callback continues
+		back := m.DialPuppetAs(victim.Name+"b", "T", victim.ID)
+		if !zzvWaitFor(5*time.Second, func() bool { return tt.peerMgr.GetPeer(victim.ID) != nil }) {
+			t.Fatal("relay-reconnect: the new connection was not registered")
+		}
+		close(g.release)
+		rounds++
+		var left int64
+		if !zzvWaitFor(2500*time.Millisecond, func() bool { left = relays(); return left == 0 }) {
+			fails = append(fails, map[string]any{"scenario": "reconnect-" + side, "what": "leak",
+				"detail": fmt.Sprintf("the %s peer of three relayed tunnels (tcp, udp, icmp) dropped its connection and reconnected before the "+
+					"transit's disconnect callback ran: %d relay index slots remain for tunnels of the dead connection: %v", side, left, tt.zzvCounts())})
+		}
+		back.Close()
+		p1.Close()
+		p2.Close()
+		m.StopAll()
+	}
+	zzvEmit("reconnect-summary", map[string]any{"rounds": rounds, "fails": fails})
+}
+
+func runtimeGOMAXPROCS(n int) int { return runtime.GOMAXPROCS(n) }
+
+func zzvEphemeral() (priv, pub [protocol.EphemeralKeySize]byte, err error) {
+	return crypto.GenerateEphemeralKeypair()
 }
